@@ -138,8 +138,8 @@ def get_operation_count(layer, input_shape):
     output_shape = layer.compute_output_shape(input_shape)
     channels_o = output_shape[-1]
 
-    # total number of add ops
-    operation_count = channels_o * add_ops
+    # total number of add ops: one window per output position and channel
+    operation_count = np.prod(output_shape[1:-1]) * channels_o * add_ops
 
   elif "UpSampling" in layer.__class__.__name__:
     # UpSampling1D/2D/3D
